@@ -690,7 +690,64 @@ class Exec(CallsMixin, Interp):
         self.p.seq_pos[seq.terms[1].get_id()] = ('setpos', pos)
         return seq
 
+    def flatmap_comprehension(self, elt, gens):
+        """[elt for a in outer for b in inner(a)] without filters: the concatenation, in order, of the mapped inner
+        lists (offsets off[t], inverse witnesses tq/kq)."""
+        g1, g2 = gens
+        if g1.ifs or g2.ifs or g1.is_async or g2.is_async:
+            raise Unsupported('filtered comprehension with several generators')
+        outer = self.eval(g1.iter)
+        tag, src = self.iter_source(outer)
+        if tag == 'empty':
+            return PyObj('emptylist')
+        if tag != 'seq':
+            raise Unsupported('comprehension with several generators over %s' % tag)
+        n = K.seq_len(src)
+        saved = dict(self.env)
+        saved_spec, self.spec = self.spec, True
+        try:
+            def inner_at(t):
+                self.assign_to(g1.target, K.seq_get(src, t))
+                inner = self.eval(g2.iter)
+                if isinstance(inner, PyObj) or not isinstance(inner.kind, K.Seq):
+                    raise Unsupported('inner generator of a comprehension must be a list')
+                return inner
+
+            def elt_at(t, k):
+                inner = inner_at(t)
+                self.assign_to(g2.target, K.seq_get(inner, k))
+                return self.eval(elt)
+            t, k, q = (self.p.fresh('fm!t', z3.IntSort()), self.p.fresh('fm!k', z3.IntSort()),
+                       self.p.fresh('fm!q', z3.IntSort()))
+            off = self.p.fresh('fm!off', z3.ArraySort(z3.IntSort(), z3.IntSort()))
+            tq = self.p.fresh('fm!tq', z3.ArraySort(z3.IntSort(), z3.IntSort()))
+            kq = self.p.fresh('fm!kq', z3.ArraySort(z3.IntSort(), z3.IntSort()))
+            e = elt_at(t, k)
+            out = self.p.fresh_value(K.Seq(e.kind), 'fm')
+            ln = K.seq_len(inner_at(t))
+            self.p.assume(z3.Select(off, 0) == 0)
+            self.p.assume(K.forall([t], z3.Implies(z3.And(0 <= t, t < n),
+                                                   z3.And(ln >= 0, z3.Select(off, t + 1) == z3.Select(off, t) + ln)),
+                                   patterns=[z3.Select(off, t)]))
+            self.p.assume(K.seq_len(out) == z3.Select(off, n))
+            self.p.assume(K.forall([t, k], z3.Implies(
+                z3.And(0 <= t, t < n, 0 <= k, k < ln),
+                z3.And(*[z3.Select(a, z3.Select(off, t) + k) == x for a, x in zip(out.terms[1:], e.terms)])),
+                patterns=[z3.MultiPattern(z3.Select(off, t), x) for x in e.terms[:1] if not z3.is_const(x)]))
+            lq = K.seq_len(inner_at(z3.Select(tq, q)))
+            self.p.assume(K.forall([q], z3.Implies(
+                z3.And(0 <= q, q < K.seq_len(out)),
+                z3.And(0 <= z3.Select(tq, q), z3.Select(tq, q) < n, 0 <= z3.Select(kq, q), z3.Select(kq, q) < lq,
+                       q == z3.Select(off, z3.Select(tq, q)) + z3.Select(kq, q))),
+                patterns=[z3.Select(a, q) for a in out.terms[1:2]]))
+            return out
+        finally:
+            self.env = saved
+            self.spec = saved_spec
+
     def comprehension(self, elt, gens, what):
+        if len(gens) == 2:
+            return self.flatmap_comprehension(elt, gens)
         if len(gens) != 1 or gens[0].is_async:
             raise Unsupported('comprehension with several generators')
         g = gens[0]
